@@ -48,7 +48,9 @@ OWN_CONFIGS = True  # the runner's interpreter-configuration clones do not apply
 # interpreter options under which "a fresh interpreter" is started besides the default: optimised (asserts and `if __debug__:`
 # blocks vanish; docstrings too), isolated (no PYTHON* variables, no script directory on sys.path), without `site`.
 # A flagged run is compared with a reference run under THE SAME options: the property is about import order, not about options.
-FLAGSETS = [["-O"], ["-OO"], ["-I"], ["-S"]]
+# "+logging-debug" is not an interpreter option: the application configured logging for DEBUG (logging.basicConfig(level=DEBUG))
+# BEFORE its first chartparse import, so import-time code that asks `logger.isEnabledFor(DEBUG)` takes its other branch.
+FLAGSETS = [["-O"], ["-OO"], ["-I"], ["-S"], ["+logging-debug"]]
 
 
 def all_orders(tier: str, seed: int) -> list[tuple[list[str], list[str]]]:
@@ -84,8 +86,8 @@ def run_child(steps, mods, timeout=120, dash_c=True, pyflags=()):
     global _SRC
     if _SRC is None:
         _SRC = open(CHILD).read()
-    head = [env.PY, "-X", "faulthandler", *pyflags] + (["-c", _SRC] if dash_c else [CHILD])
-    p = subprocess.run(head + [env.REPO, json.dumps({"steps": steps, "modules": mods})],
+    head = [env.PY, "-X", "faulthandler", *[f for f in pyflags if not f.startswith("+")]] + (["-c", _SRC] if dash_c else [CHILD])
+    p = subprocess.run(head + [env.REPO, json.dumps({"steps": steps, "modules": mods, "ambient": [f[1:] for f in pyflags if f.startswith("+")]})],
                        capture_output=True, text=True, timeout=timeout,
                        env={"PYTHONHASHSEED": "0", "PYTHONDONTWRITEBYTECODE": "1", "PATH": os.environ.get("PATH", "")},
                        cwd="/")
